@@ -382,11 +382,9 @@ def stream_eval2d(c, N):
         else:
             tx = gen_knots(rng, kx, rng.choice(["clamped", "clamped", "fitlike"]), dyadic)
             ty = gen_knots(rng, ky, rng.choice(["clamped", "clamped", "fitlike"]), dyadic)
-            if len(tx) > kx + 5:
-                tx = tx[: kx + 1] + tx[kx + 1: kx + 3] + tx[-(kx + 1):]
-            if len(ty) > ky + 5:
-                ty = ty[: ky + 1] + ty[ky + 1: ky + 3] + ty[-(ky + 1):]
-            tx, ty = sorted(tx), sorted(ty)
+            # at most two interior knots per direction (keeps the CasADi expression small)
+            tx = tx[: kx + 1] + tx[kx + 1: -(kx + 1)][:2] + tx[-(kx + 1):]
+            ty = ty[: ky + 1] + ty[ky + 1: -(ky + 1)][:2] + ty[-(ky + 1):]
             w = gen_weights(rng, (len(tx) - kx - 1) * (len(ty) - ky - 1), dyadic, shape=rng.choice(["any", "any", "unit", "const"]))
             origin = "random"
             if rng.random() < 0.1:
@@ -567,16 +565,21 @@ def stream_fit(c, N):
         else:
             ref_sse, ref_sol = ref
             c.hit("fit/reference-compared")
-            tol = 1e-6 * (1.0 + float(np.sum(y * y)))
+            sy2 = float(np.sum(y * y))
+            # IPOPT stops slightly inside active constraints (barrier), hence the looser constrained tolerance
+            tol = (1e-6 if (mono == 0 and curv == 0) else 1e-4) * sy2 + 1e-12
+            c.extra.setdefault("fit_excess_sse_rel_max", 0.0)
+            c.extra["fit_excess_sse_rel_max"] = max(c.extra["fit_excess_sse_rel_max"], (sse - ref_sse) / max(sy2, 1e-300))
             if sse > ref_sse + tol:
                 c.fail("fit is not a least-squares approximation: an independent solve of the same "
                        "problem has a smaller sum of squares", case, {"fit sse": sse, "reference sse": ref_sse})
             if mono == 0 and curv == 0:
-                A_rank_full = np.linalg.matrix_rank(np.column_stack(
-                    [splev(x, (t, np.eye(n)[i], k)) for i in range(m)])) == m
-                if A_rank_full and not np.allclose(w[:m], ref_sol, rtol=1e-5, atol=1e-6 * yscale):
-                    c.fail("unconstrained fit differs from the least-squares solution", case,
-                           {"fit": list(w[:m]), "reference": list(ref_sol)})
+                # without constraints the fitted values are those of the linear least-squares solution
+                ref_fitted = splev(x, (t, np.concatenate([ref_sol, np.zeros(k + 1)]), k))
+                amp = float(np.max(np.abs(y))) or 1.0
+                if not np.allclose(fitted, ref_fitted, rtol=0, atol=1e-4 * amp):
+                    c.fail("unconstrained fit differs from the least-squares solution at the data points", case,
+                           {"fit": list(fitted), "reference": list(ref_fitted)})
         # ---- exact re-check with the model's derivative formula (correspondence)
         if outs is not None:
             mv, m1, m2 = outs[pos], outs[pos + 1], outs[pos + 2]
@@ -625,6 +628,9 @@ def stream_reverse(c, N):
         k = rng.choice([1, 2, 3, 3, 3])
         dyadic = rng.random() < 0.5
         t = gen_knots(rng, k, rng.choice(["clamped", "fitlike"]), dyadic)
+        # continuous tables only (interior knot multiplicity <= k): the inverse lookup of a value
+        # inside a jump has no solution (brentq's contract presupposes a continuous function)
+        t = [v for i, v in enumerate(t) if v in (t[0], t[-1]) or t[:i].count(v) < k]
         m = len(t) - k - 1
         shape = rng.choice(["inc", "inc", "dec", "dec", "any"])
         w = gen_weights(rng, m, dyadic, shape=shape)
@@ -640,7 +646,7 @@ def stream_reverse(c, N):
         f = ca.Function("f", [sx], [BSpline1D(tt, ww, k)(sx)])
         lt = LookupTable([sx], f, (tt, ww, k))
         wpad = np.concatenate([ww[:m], np.zeros(k + 1)])
-        ref = lambda x: float(splev(x, (tt, wpad, k)))  # noqa
+        ref = (lambda tt_, wpad_, k_: (lambda x: float(splev(x, (tt_, wpad_, k_)))))(tt, wpad, k)
         dl, du = np.nextafter(t[0], INF), np.nextafter(t[-1], -INF)
         r0, r1 = ref(dl), ref(du)
         rlo, rhi = min(r0, r1), max(r0, r1)
